@@ -271,7 +271,8 @@ fn cmd_replay(a: &Args) -> i32 {
         }
         Ok(Some(v)) => {
             if machine {
-                println!("REPLAY-VIOLATION {}", v.to_json().to_string());
+                // on a line of its own whatever the case itself wrote to stdout before
+                println!("\nREPLAY-VIOLATION {}", v.to_json().to_string());
             } else {
                 println!("VIOLATION property={} replay={}", prop, path);
                 println!("  oracle: {}  sig: {}", v.oracle, v.sig);
@@ -313,6 +314,9 @@ fn cmd_minimise_crash(a: &Args) -> i32 {
     let tmp = format!("{}.cand", path);
     let mut tried = 0;
     let mut accepted = 0;
+    // every candidate that still hangs costs the whole timeout: five minutes in all, then the
+    // replay file stays as minimal as it got
+    let started = std::time::Instant::now();
     'outer: loop {
         let name: &str = &engine;
         let cands = match dispatch!(name, do_shrink_candidates(&j)) {
@@ -320,7 +324,7 @@ fn cmd_minimise_crash(a: &Args) -> i32 {
             Err(_) => break,
         };
         for c in cands {
-            if tried >= budget {
+            if tried >= budget || started.elapsed().as_secs() >= 300 {
                 break 'outer;
             }
             tried += 1;
